@@ -392,6 +392,9 @@ class Engine:
         self.callbacks.append(rec)
         for m in self.monitors:
             m.on_callback(self, rec)
+        if self.w.__dict__.get("manual_ramps"):
+            self.w.manual_advance(j, i)
+            self.log.count("boundaries-moved-by-the-caller")
         if getattr(self.w, "shadow", None) is not None:
             self.w.poke_shadow()
             self.log.count("shadow-model-evaluated")
